@@ -61,6 +61,9 @@ AtEOF == pos = Len(content) /\ nreads > 0
 (******************************* C14 predicates *****************************)
 \* evaluated on (content, what was fed, what was handed on, the count) - modelled or observed
 C14_PassThrough(c, o) == o = c
+\* the digest can be asked for at any moment: it is the digest of what has been fed so far (in the model `fed` itself),
+\* so asking early can neither be wrong nor influence what is reported at the end
+C14_SoFar(f, digestInput) == digestInput = f
 C14_PlainDigest(c, f) == f = c
 C14_PlainCount(c, n) == n = Len(c)
 \* legacy stream, whole file in one read: text is normalised (so CRLF and LF variants agree),
